@@ -253,12 +253,16 @@ pub fn systems(tier: Tier) -> Vec<(WorldSys<'static, PdMon>, (usize, usize))> {
         ("p2p-master", 248, vec![Ev::T(0, Timer::Receipt)], (6, 7)),
         ("p2p-slave", 248, slave.clone(), (6, 7)),
         ("p2p-passive", 6, slave.clone(), (5, 7)),
+        // slave-only instance: listening, and slave of A
+        ("p2p-slaveonly-listening", 255, vec![], (5, 7)),
+        ("p2p-slaveonly-slave", 255, slave.clone(), (5, 7)),
     ] {
         if tier == Tier::Quick && name == "p2p-passive" {
             // kept in quick too, at lower depth
         }
         let mut node = NodeSpec::default();
         node.class = class;
+        node.slave_only = name.contains("slaveonly");
         node.ports = vec![PortSpec { p2p: true, ..Default::default() }];
         let mut cfg = WorldCfg { node: node.clone(), log_in_key: true, ..Default::default() };
         let a = Peer::gm(1, 1);
